@@ -540,6 +540,12 @@ func (p *Parser) evaluateValues(ctx context) (evaluatedValues, error) {
 				return evaluatedValues{}, p.expectedError(fmt.Sprintf(`return value from function "%s"`, funcName), exprToken)
 			}
 		}
+		// Whatever the expression is wrapped in (e.g. brackets), it must have a value.
+		err = p.checkHasValue(expr, exprToken)
+
+		if err != nil {
+			return evaluatedValues{}, err
+		}
 		// In a list of several values, a function must only return one value.
 		if returnValuesLength > 1 && (nextToken.Type() == lexer.COMMA || len(expressions) > 1) {
 			return evaluatedValues{}, p.expectedError(fmt.Sprintf(`only one return value from function "%s"`, funcName), exprToken)
